@@ -221,6 +221,13 @@ func c08CommitState(c *Ctx, p *Program, rows []*reviewRow) {
 				c.Pass("commit-state", key, pos, "reviewed: "+r.reason)
 				continue
 			}
+			// the commit site was extracted into a helper: a line reviewed for the method it was
+			// extracted from still applies when that method is the helper's only caller (up to two levels)
+			if r := reviewedThroughCallers(p, rows, s.fn, f, 0); r != nil {
+				r.used = true
+				c.Pass("commit-state", key, pos, "reviewed for the only caller: "+r.reason)
+				continue
+			}
 			c.Fail("commit-state", key, pos, fmt.Sprintf("%s commits a frame to the muxer but a successful exit leaves AnimEncoder.%s unwritten, while sibling commit sites update it: the next frame is optimised against stale state (wrong previous rectangle / canvas / muxer index)", s.fn.Name(), f))
 		}
 	}
@@ -599,7 +606,7 @@ func c08CandidateConsistency(c *Ctx, p *Program) {
 				return fmt.Sprintf("%s@%s", cal.Name(), p.Pos(x.Pos()))
 			}
 		case *ssa.Parameter:
-			return "param." + x.Name()
+			return "param." + fn.Name() + "." + x.Name()
 		}
 		return v.Name()
 	}
@@ -622,6 +629,28 @@ func c08CandidateConsistency(c *Ctx, p *Program) {
 					refsOfRect(fn, a, seen, depth+1, out)
 				}
 			}
+			// a helper of the package that computes the rectangle: follow its results and translate
+			// its parameters to this call's arguments
+			if cal != nil && cal.Blocks != nil && cal.Pkg == pk && x.Call.Signature().Results().Len() == 1 {
+				inner := map[string]bool{}
+				for _, cb := range cal.Blocks {
+					if ret, ok := cb.Instrs[len(cb.Instrs)-1].(*ssa.Return); ok && len(ret.Results) == 1 {
+						refsOfRect(cal, ret.Results[0], seen, depth+1, inner)
+					}
+				}
+				for k := range inner {
+					translated := false
+					for i, prm := range cal.Params {
+						if k == "param."+cal.Name()+"."+prm.Name() && i < len(x.Call.Args) {
+							out[canvasKey(fn, x.Call.Args[i])] = true
+							translated = true
+						}
+					}
+					if !translated {
+						out[k] = true
+					}
+				}
+			}
 		case *ssa.Phi:
 			for _, e := range x.Edges {
 				refsOfRect(fn, e, seen, depth+1, out)
@@ -631,6 +660,22 @@ func c08CandidateConsistency(c *Ctx, p *Program) {
 				for _, u := range *al.Referrers() {
 					if st, ok := u.(*ssa.Store); ok && st.Addr == ssa.Value(al) {
 						refsOfRect(fn, st.Val, seen, depth+1, out)
+					}
+				}
+			}
+			// a field of a local record (cand.rect): the values stored into that field
+			if fa, ok := x.X.(*ssa.FieldAddr); ok && x.Op == token.MUL {
+				if al, ok := fa.X.(*ssa.Alloc); ok && al.Referrers() != nil {
+					for _, u := range *al.Referrers() {
+						fa2, ok := u.(*ssa.FieldAddr)
+						if !ok || fa2.Field != fa.Field || fa2.Referrers() == nil {
+							continue
+						}
+						for _, u2 := range *fa2.Referrers() {
+							if st, ok := u2.(*ssa.Store); ok && st.Addr == ssa.Value(fa2) {
+								refsOfRect(fn, st.Val, seen, depth+1, out)
+							}
+						}
 					}
 				}
 			}
@@ -853,6 +898,41 @@ func c08CommitRect(c *Ctx, p *Program) {
 						continue
 					}
 					for _, in2 := range b2.Instrs {
+						// a helper method called after the commit that stores one of its rectangle
+						// parameters into a receiver field: the argument must be R
+						if call2, ok := in2.(*ssa.Call); ok && in2 != in {
+							cal := call2.Common().StaticCallee()
+							if cal != nil && cal.Blocks != nil && recvNamedIs(cal, "AnimEncoder") {
+								for pi, prm := range cal.Params {
+									if pi == 0 || !isRect(prm.Type()) || pi >= len(call2.Common().Args) {
+										continue
+									}
+									stored := ""
+									for _, cb := range cal.Blocks {
+										for _, cin := range cb.Instrs {
+											if st, ok := cin.(*ssa.Store); ok && st.Val == ssa.Value(prm) {
+												if f, ok := recvFieldOf(cal, st.Addr); ok {
+													stored = f
+												}
+											}
+										}
+									}
+									if stored == "" {
+										continue
+									}
+									arg := call2.Common().Args[pi]
+									var ab ssa.Value = arg
+									if u, ok := arg.(*ssa.UnOp); ok && u.Op == token.MUL {
+										ab = u.X
+									}
+									n++
+									c.Func(FnName(fn))
+									c.Check(ab == base || accessPath(ab) == accessPath(base), "commit-rect", fmt.Sprintf("%s:%s(via %s)", fn.Name(), stored, cal.Name()), p.Pos(call2.Pos()),
+										"the rectangle handed to "+cal.Name()+" to be remembered is the one whose origin was given to the muxer",
+										fmt.Sprintf("%s places the frame at the origin of one rectangle (%s) but hands another to %s, which remembers it in AnimEncoder.%s: the next frame's dispose-to-background candidate is simulated on a rectangle the decoder does not clear", fn.Name(), p.ExprText(off.Pos()), cal.Name(), stored))
+								}
+							}
+						}
 						st, ok := in2.(*ssa.Store)
 						if !ok || !isRect(st.Val.Type()) {
 							continue
@@ -882,7 +962,7 @@ func c08CommitRect(c *Ctx, p *Program) {
 						}
 						n++
 						c.Func(FnName(fn))
-						c.Check(sb == base, "commit-rect", fmt.Sprintf("%s:%s", fn.Name(), f), p.Pos(st.Pos()),
+						c.Check(sb == base || accessPath(sb) == accessPath(base), "commit-rect", fmt.Sprintf("%s:%s", fn.Name(), f), p.Pos(st.Pos()),
 							"the remembered rectangle is the one whose origin was given to the muxer ("+p.ExprText(st.Val.Pos())+")",
 							fmt.Sprintf("%s places the frame at the origin of one rectangle (%s) but remembers another (%s) in AnimEncoder.%s: the next frame's dispose-to-background candidate is simulated on a rectangle the decoder does not clear", fn.Name(), p.ExprText(off.Pos()), p.ExprText(st.Val.Pos()), f))
 					}
@@ -891,4 +971,55 @@ func c08CommitRect(c *Ctx, p *Program) {
 		}
 	}
 	c.Floor("commit-rect", n, 1)
+}
+
+
+// accessPath: a canonical name for a value reached by field selections from a parameter, a local
+// variable or another value (two loads of cand.rect are different SSA values with the same path).
+func accessPath(v ssa.Value) string {
+	switch t := v.(type) {
+	case *ssa.UnOp:
+		if t.Op == token.MUL {
+			return accessPath(t.X)
+		}
+	case *ssa.FieldAddr:
+		return accessPath(t.X) + "." + fieldNameOf(t.X.Type(), t.Field)
+	case *ssa.Field:
+		return accessPath(t.X) + "." + fieldNameOf(t.X.Type(), t.Field)
+	case *ssa.Parameter:
+		return "param:" + t.Name()
+	case *ssa.Alloc:
+		return "local:" + t.Comment + "@" + t.Name()
+	}
+	return "value:" + v.Name()
+}
+
+
+func reviewedThroughCallers(p *Program, rows []*reviewRow, fn *ssa.Function, field string, depth int) *reviewRow {
+	if depth > 2 {
+		return nil
+	}
+	n := p.CallGraph().Nodes[fn]
+	if n == nil || len(n.In) == 0 {
+		return nil
+	}
+	var found *reviewRow
+	callers := map[*ssa.Function]bool{}
+	for _, e := range n.In {
+		callers[e.Caller.Func] = true
+	}
+	for cf := range callers {
+		if !recvNamedIs(cf, "AnimEncoder") {
+			return nil
+		}
+		r := findRow(rows, "commit:"+cf.Name(), field)
+		if r == nil {
+			r = reviewedThroughCallers(p, rows, cf, field, depth+1)
+		}
+		if r == nil {
+			return nil
+		}
+		found = r
+	}
+	return found
 }
